@@ -24,3 +24,7 @@ type WorldImpl = vexec.WorldImpl
 func SetWorld(w *World) { vexec.Virtual = w }
 
 var NewExitError = vexec.NewExitError
+
+// DeepDump / DumpGlobals: reflective dumps used by C19 (see vhook/deepdump.go).
+func DeepDump(v any) string { return vhook.DeepDump(v) }
+func DumpGlobals() string   { return vhook.DumpGlobals() }
